@@ -244,22 +244,42 @@ def verdict_only_under_lock(ctx, rid):
                "%s asks the dirtiness callback itself: a build/skip decision is taken outside BuildJob::start, i.e. possibly without the target's lock and before another process's result is recorded" % b.key)
     ctx.floor(rid, "invocations of the dirtiness callback", n_direct, 1)
     # a target found locked is queued / waited for
+    from core import FA
     S = anchors.scheduler(prog)
-    sba = BA.of(S)
-    owned = sba.switches_on_call(r"state::Lock::is_owned")
-    jobs = [bb for (bb, _, _) in anchors.agg_sites(S, r"builder::BuildJob")]
-    pushes = set(i for i in sba.all_calls() if any(re.fullmatch(r"alloc::collections::vec_deque::VecDeque::push_back", p) for p in callee_paths(S.blocks[i]["term"])))
-    moves_on = set(i for i in sba.all_calls() if any(re.fullmatch(r"(<.* as )?core::iter::traits::iterator::Iterator(>)?::next|alloc::collections::vec_deque::VecDeque::pop_front|jobserver::JobServerHandle::wait_all", p) for p in callee_paths(S.blocks[i]["term"])))
+    # the scheduler family: the body that constructs BuildJob plus the local coroutines it awaits (a pass that was
+    # moved into an `async fn` of its own)
+    fam = [S]
+    for (_, _, _, callee) in BA.of(S).awaits():
+        cb = prog.bodies.get(callee or "")
+        if cb is not None and cb.coroutine and cb.key not in [x.key for x in fam]:
+            fam.append(cb)
+    PUSH = r"alloc::collections::vec_deque::VecDeque::push_back"
+    MOVES_ON = r"(<.* as )?core::iter::traits::iterator::Iterator(>)?::next|alloc::collections::vec_deque::VecDeque::pop_front|jobserver::JobServerHandle::wait_all"
     n = 0
-    for (sw, t_t, f_t, call_bb) in owned:
-        if not any(sba.edge_dominates((sw, t_t), j) for j in jobs):
-            continue
-        n += 1
-        p = sba.path([f_t], moves_on, avoid=pushes | {sw}, incl=True)
-        ctx.ob(rid, "%s|is_owned#%d|not-owned=>queued-or-waited-for" % (S.key, n - 1), p is None, where=ctx.where(S, sw),
-               detail="on the not-owned side the target is queued (push_back) or the lock is waited for" if p is None else
-               "a target whose lock is held elsewhere can be dropped without being queued: path %s reaches the next piece of work" % " -> ".join("bb%d" % x for x in p), witness=p)
-    ctx.floor(rid, "is_owned tests guarding a BuildJob", n, 2)
+    for B_ in fam:
+        bba = BA.of(B_)
+        fa = FA.of(B_)
+        owned = bba.switches_on_call(r"state::Lock::is_owned")
+        jobs = [bb for (bb, _, _) in anchors.agg_sites(B_, r"builder::BuildJob")]
+        pushes = set(i for i in bba.all_calls() if any(re.fullmatch(PUSH, p) for p in callee_paths(B_.blocks[i]["term"])))
+        moves_on = set(i for i in bba.all_calls() if any(re.fullmatch(MOVES_ON, p) for p in callee_paths(B_.blocks[i]["term"])))
+        for k, (sw, t_t, f_t, call_bb) in common.ordinal_keys([("is_owned", x) for x in owned]):
+            guards_job = any(bba.edge_dominates((sw, t_t), j) for j in jobs)
+            if B_.key == S.key and not guards_job:
+                continue
+            if B_.key != S.key:
+                # a waiting coroutine: it must not complete normally on the not-owned side
+                if not bba.calls(r"state::Lock::wait_lock"):
+                    continue
+                goal = set(common.ok_returns(B_)) if hasattr(common, "ok_returns") else set(bba.returns())
+            else:
+                goal = moves_on
+            n += 1
+            p_ = fa.path([f_t], goal, avoid=pushes | {sw}, incl=True)
+            ctx.ob(rid, "%s|%s|not-owned=>queued-or-waited-for" % (B_.key, k), p_ is None, where=ctx.where(B_, sw),
+                   detail="on the not-owned side the target is queued (push_back) or the lock is waited for" if p_ is None else
+                   "a target whose lock is held elsewhere can be dropped without being queued: path %s reaches the next piece of work" % " -> ".join("bb%d" % x for x in p_), witness=p_)
+    ctx.floor(rid, "is_owned tests guarding a BuildJob / a blocking wait", n, 2)
 
 
 # ------------------------------------------------------------------------------------------------
@@ -480,8 +500,10 @@ def interrupted_creation_is_recoverable(ctx, rid):
     I = prog.one(r"state::ProcessState::init")
     ba = BA.of(I)
     from core import str_consts
-    creates = sorted({bb for (bb, _, txt, _) in str_consts(I) if re.match(r"\s*create\s+table", txt, re.I)})
-    if not ctx.floor(rid, "create-table statements in init", len(creates), 4):
+    # the schema-creating side: where the tables are created / the version row is inserted (the statements may sit in a
+    # constant table, so one literal is enough to locate the side)
+    creates = sorted({bb for (bb, _, txt, _) in str_consts(I) if re.match(r"\s*(create\s+table|insert\s+into\s+schema)\b", txt, re.I)})
+    if not ctx.floor(rid, "schema-creating statements in init", len(creates), 1):
         return
     # the switch that separates the creating side from the checking side
     guards = []
